@@ -73,6 +73,12 @@ def probe_nontransitive():
     return Registry('nontransitive', direct, [(2, [0, 0])], [[[2, 3], [1, 2], [3, 1]]])
 
 
+def probe_deep_join(rec_order=(4, 3, 2, 1, 0)):
+    # A; B:{A}; C:{B}; E; X:{C,E}: direct bases only, X registered before C, E before A; methods on E and on A
+    direct = [[], [0], [1], [], [2, 3]]
+    return Registry('deep_join', direct, [(1, [3]), (1, [0])], [[[3], [4]], [[0], [4]]], 'direct', list(rec_order))
+
+
 def probe_next():
     # C03: (A,A), (A,Dog), (Dog,A), (Dog,Cat) over Animal <- Dog, Cat
     return Registry('tree3_next', LATTICES['tree3'], [(2, [0, 0]), (2, [0, 0])],
@@ -112,7 +118,7 @@ def c01_queries(tier):
         for pol in (2, 3):
             for j, r in enumerate([probe_diamond(), probe_next()]):
                 qs.append(_q('C01', r, 'dispatch_pol%d_%s' % (pol, tag(r, j)), {'POL': pol}))
-    return qs
+    return qs + kernel_queries('C01', tier)
 
 
 def c02_queries(tier):
@@ -126,11 +132,11 @@ def c03_queries(tier):
     qs += [_q('C03', r, 'next_recomputed_' + tag(r, i), {'PRIOR_GARBAGE': 16, 'TWO_UPDATES': 1},
               symbolic='argument classes; prior next pointers, dispatch data, static v-table pointers, slots/strides arbitrary')
            for i, r in enumerate([probe_next(), probe_diamond()])]
-    return qs
+    return qs + kernel_queries('C03', tier)
 
 
 def c04_queries(tier):
-    regs = [probe_c04(), probe_c04('complete', [1, 0, 2, 3]), probe_c04('direct', [1, 0, 2, 3]), probe_three_roots(), probe_diamond()]
+    regs = [probe_c04(), probe_c04('complete', [1, 0, 2, 3]), probe_c04('direct', [1, 0, 2, 3]), probe_three_roots(), probe_diamond(), probe_deep_join()]
     regs += family(tier, shapes=(1, 1, 2, 1, 5), nm=3, max_defs=2)
     if True:
         # incremental (direct bases only) presentation of the family, in a second registration order
@@ -142,10 +148,11 @@ def c04_queries(tier):
 def c06_queries(tier):
     rnd = random.Random(seed() * 7 + 3)
     base = [probe_c06(), probe_nontransitive(), probe_diamond(), probe_mi_unrelated(), probe_next()] + family(tier, per=1)
+    base += [probe_deep_join((0, 1, 2, 3, 4)), probe_c04('direct')]
     qs = []
     nperm = 3 if tier == 'quick' else 8
     for i, r in enumerate(base):
-        k = nperm if i < 5 else (1 if tier == 'quick' else 3)
+        k = nperm if i < 5 else (6 if r.name in ('deep_join', 'probe_c04') else (1 if tier == 'quick' else 3))
         import itertools
         if r.name in ('probe_c06', 'nontransitive'):
             # all 6 orders of the three definitions
@@ -166,6 +173,8 @@ def c08_queries(tier):
         for p in (pres if (tier == 'thorough' or i < 3) else pres[:2] + [pres[3]]):
             pr = Registry(r.name, r.direct, r.methods, r.defs, p)
             qs.append(_q('C08', pr, 'presentation_%s_%s' % (p, tag(r, i)), desc='base lists presented as: ' + p))
+    for j, ro in enumerate(([4, 3, 2, 1, 0], [4, 2, 3, 1, 0], [0, 1, 2, 3, 4], [3, 4, 0, 2, 1])):
+        qs.append(_q('C08', probe_deep_join(ro), 'presentation_direct_deep_join_o%d' % j, desc='deep chain joined with an unrelated root, direct bases only, record order %s' % ro))
     # the property's own probe: incremental registration, class C11 registered before C10
     for p in ('direct', 'direct_noself', 'complete'):
         qs.append(_q('C08', probe_c04(p, [1, 0, 2, 3]), 'presentation_%s_probe_c04_c11_first' % p, desc='base lists presented as: %s; C11 registered first' % p))
@@ -191,6 +200,9 @@ def c10_queries(tier):
     for i, r in enumerate(base):
         ar = Registry(r.name, r.direct, r.methods, r.defs, r.presentation, alias=True)
         qs.append(_q('C10', ar, 'alias_ids_' + tag(r, i), {'ALIAS_IDS': 1}, desc='two ids per class, many-to-one type_index projection',
+                     symbolic='argument classes and which of its two ids each argument object carries'))
+        sp = Registry(r.name, r.direct, r.methods, r.defs, r.presentation, alias='split')
+        qs.append(_q('C10', sp, 'alias_split_' + tag(r, i), {'ALIAS_IDS': 1}, desc='two ids per class; the record under the first id lists no bases, the record under the second id lists them',
                      symbolic='argument classes and which of its two ids each argument object carries'))
         sparse = Registry(r.name, r.direct, r.methods, r.defs, r.presentation, ids=[3 + 4 * k for k in range(len(r.direct))])
         qs.append(_q('C10', sparse, 'custom_ids_' + tag(r, i), desc='custom integer ids 3,7,11,... (identity projection)'))
@@ -259,4 +271,20 @@ def deferred_queries(pid, tier):
                             desc='resolve_static_type_ids: every deferred id resolved exactly once across %d update(s), arity %d, one class without bases' % (upd, ar),
                             symbolic='which class each method / definition parameter names',
                             bounds={'classes': 3, 'definitions': 2, 'arity': ar, 'updates': upd}))
+    return qs
+
+
+def kernel_queries(pid, tier):
+    """best / is_more_specific / is_base on a symbolic inheritance relation: all lattices on NC classes at once."""
+    cfgs = [(3, 2, 2), (4, 2, 2)] if tier == 'quick' else [(3, 3, 2), (4, 2, 2), (4, 3, 1), (4, 3, 2), (4, 2, 3), (5, 3, 2), (4, 4, 2)]
+    qs = []
+    for nc, nd, ar in cfgs:
+        qs.append(Query('kernel_best_nc%d_nd%d_ar%d' % (nc, nd, ar), 'kernel_best.cpp', {'NC': nc, 'ND': nd, 'AR': ar}, unwind=12, models=True,
+                        checks='none', covers=(999, 901, 902), timeout=1800 if tier == 'thorough' else 900,
+                        desc='compiler::best / is_more_specific / is_base for EVERY inheritance relation on %d classes, every %d definitions of arity %d, '
+                             'every presentation order' % (nc, nd, ar),
+                        symbolic='the whole inheritance relation (reflexive, transitive, antisymmetric), the parameter classes of every definition, '
+                                 'the order of the candidates',
+                        bounds={'classes': nc, 'definitions': nd, 'arity': ar, 'unwind': 12},
+                        only_asserts={1, 3, 4, 5} if pid in ('C01', 'C02', 'C06') else {2, 3, 4, 5}))
     return qs
